@@ -350,8 +350,9 @@ func (c *clientSys) close() { _ = c.cl.Close() }
 
 // server chains
 type srvSys struct {
-	ex   *kmipserver.BatchExecutor
-	stop bool
+	ex       *kmipserver.BatchExecutor
+	stop     bool
+	critical bool
 }
 
 // reqMsgStop: the request of the "srvmsg-stop" chain: the core of a message chain is the whole batch execution, and every
@@ -469,6 +470,9 @@ func (s *srvSys) run(u int) (k string, f int) {
 	if s.stop {
 		msg = reqMsgStop(u, 0)
 	}
+	if s.critical {
+		msg.BatchItem[0].MessageExtension = &kmip.MessageExtension{VendorIdentification: "verif", CriticalityIndicator: true}
+	}
 	resp := s.ex.HandleRequest(context.Background(), msg)
 	return resOfMsg(resp, nil)
 }
@@ -486,6 +490,10 @@ func build(rec *recorder, kind string, chain []string) (system, error) {
 		return newSrvSys(rec, chain, true), nil
 	case "srvmsg-late":
 		return newSrvSys(rec, chain, false, true), nil
+	case "srvitem-critical":
+		sys := newSrvSys(rec, chain, true).(*srvSys)
+		sys.critical = true
+		return sys, nil
 	case "srvmsg-stop":
 		sys := newSrvSys(rec, chain, false).(*srvSys)
 		sys.stop = true
@@ -506,7 +514,7 @@ type kindVariant struct {
 // every chain runs on the three real chains; chains that derive contexts additionally run on the two
 // server chains with derived contexts that are already cancelled
 func kindVariants(chain []string) []kindVariant {
-	kv := []kindVariant{{"client", false}, {"srvmsg", false}, {"srvitem", false}, {"srvmsg-late", false}, {"srvitem-late", false}, {"srvmsg-stop", false}, {"client-builtin", false}}
+	kv := []kindVariant{{"client", false}, {"srvmsg", false}, {"srvitem", false}, {"srvmsg-late", false}, {"srvitem-late", false}, {"srvmsg-stop", false}, {"client-builtin", false}, {"srvitem-critical", false}}
 	for _, p := range chain {
 		if p == "newctx" || p == "thrice" {
 			return append(kv, kindVariant{"srvmsg", true}, kindVariant{"srvitem", true})
@@ -515,7 +523,27 @@ func kindVariants(chain []string) []kindVariant {
 	return kv
 }
 
+// criticalView: what Chain.tla's history looks like when the core answers every invocation with an error (the item carries a critical
+// message extension, which the executor's core rejects before any operation handler): the chain runs exactly as the specification
+// says, the core handler of the harness is never reached, and every result that came from the core (f <= 0) is an error.
+func criticalView(exp []Event) []Event {
+	var res []Event
+	for _, e := range exp {
+		if e.E == "core" {
+			continue
+		}
+		if e.E == "exit" && e.K == "ok" && e.F <= 0 {
+			e.K, e.F = "err", -1
+		}
+		res = append(res, e)
+	}
+	return res
+}
+
 func eventsEqual(kind string, got, exp []Event) bool {
+	if kind == "srvitem-critical" {
+		exp = criticalView(exp)
+	}
 	if len(got) != len(exp) {
 		return false
 	}
@@ -564,6 +592,9 @@ func TestReplay(t *testing.T) {
 				got := rec.hist[u]
 				rec.mu.Unlock()
 				expK, expF := c.Final[0].(string), int(c.Final[1].(float64))
+				if kind == "srvitem-critical" && expK == "ok" && expF <= 0 {
+					expK, expF = "err", -1
+				}
 				if !eventsEqual(kind, got, c.Hist) || k != expK || f != expF {
 					mism++
 					out.Emit(map[string]any{"case": n, "kind": kind, "rep": rep, "chain": c.Chain, "deadctx": kv.dead,
